@@ -681,7 +681,11 @@ func (f *Frame) execBlock(b *ssa.BasicBlock, st *State) {
 func (f *Frame) execPanic(in *ssa.Panic, st *State) {
 	e := f.e
 	// explicit panic: must be unreachable unless the contract says otherwise
-	e.ob(f, "no-panic.explicit", "explicit panic is unreachable", st.cond, "false", in.Pos())
+	if e.C != nil && e.C.SkipPanics != "" {
+		e.skippedPanics++
+	} else {
+		e.ob(f, "no-panic.explicit", "explicit panic is unreachable", st.cond, "false", in.Pos())
+	}
 }
 
 func (f *Frame) set(v ssa.Value, x Val) {
@@ -1310,6 +1314,8 @@ func (f *Frame) execMapUpdate(in *ssa.MapUpdate, st *State) {
 	e.check(f, st, "no-panic.nilmap", "assignment to entry in nil map", sNot(sEq(m.S, "0")), in.Pos())
 	e.guardCheckMap(f, st, in.Map, true, in.Pos())
 	e.rangeNoMutate(f, st, in.Block(), mt, m.S, in.Pos())
+	// site "call mapupdate#k": $arg0 map, $arg1 key, $arg2 value
+	e.siteCall(f, st, "mapupdate", []Val{m, k, v}, in.Pos())
 	kt := e.keyTerm(k, mt.Key())
 	vt := v.S
 	if vt == "" {
